@@ -707,3 +707,156 @@ theorem rule_refines (E : RegexEngine) (ic : Bool) (entries : List (Str × Yaml)
   | of i n => simp [Cond.noQ] at hnq
 
 end Tau.C02
+
+/-! ### Rule level with quantifiers in the condition -/
+
+namespace Tau.C02
+open Tau
+
+section
+variable (E : RegexEngine) (ic : Bool) (K : IdentK)
+
+/-- The top-level entries of an identifier value as all(X) / of(X, n) count them: the entries of a
+    mapping with at least two entries (in written order), the mappings of a sequence. `none`: the
+    identifier is not a list of entries (a one-entry mapping stands for its entry; what the
+    quantifiers do with that is C08's subject and its recorded finding). -/
+def semTop (y : Yaml) (d : Doc) : Option (List Tri) :=
+  match y with
+  | .map (p :: q :: rest) => some (semEntries E ic K (p :: q :: rest) d)
+  | .seq (a :: r) => some ((a :: r).map (fun y => match y with | .map m => Tri.and (semEntries E ic K m d) | _ => .m))
+  | _ => none
+
+def wide : Yaml → Bool
+  | .map (_ :: _ :: _) => true
+  | .seq (_ :: _) => true
+  | _ => false
+
+theorem parseEntries_length : ∀ (kvs : List (Yaml × Yaml)) (es : List Expr),
+    parseEntries E ic kvs = .ok es → es.length = kvs.length
+  | [], es, h => by simp [parseEntries] at h; subst h; rfl
+  | p :: rest, es, h => by
+    simp only [parseEntries] at h
+    split at h
+    · cases h
+    · split at h
+      · cases h
+      · rename_i xs hxs
+        cases h
+        simp only [List.length_cons, parseEntries_length rest xs hxs]
+
+/-- **An identifier that is a list of entries parses to a group of exactly those entries**, each
+    evaluating to the documented meaning of the entry as written. -/
+theorem identifier_top_refines (y : Yaml) (e : Expr) (h : parseIdentifier E ic y = .ok e)
+    (hq : nqIdent y = true) (hw : wide y = true) :
+    ∃ op es, e = .group op es ∧ ∀ d, some (es.map (solveG E K d)) = semTop E ic K y d := by
+  cases y with
+  | map m =>
+    match m, hw with
+    | p :: q :: rest, _ =>
+      simp only [parseIdentifier, parseMapping] at h
+      cases hes : parseEntries E ic (p :: q :: rest) with
+      | error err => rw [hes] at h; simp [finishMapping] at h
+      | ok es =>
+        rw [hes] at h
+        have hlen := parseEntries_length E ic _ es hes
+        obtain ⟨h1, _⟩ := entries_sem E ic K _ es hes hq
+        match es, hlen with
+        | x1 :: x2 :: xs, _ =>
+          simp only [finishMapping] at h
+          cases h
+          exact ⟨.and, x1 :: x2 :: xs, rfl, fun d => by simp only [semTop, h1 d]⟩
+  | seq ys =>
+    match ys, hw with
+    | a :: r, _ =>
+      simp only [parseIdentifier] at h
+      split at h
+      · cases h
+      · rename_i es hes
+        cases h
+        refine ⟨.or, es, rfl, fun d => ?_⟩
+        simp only [semTop]
+        rw [go_sem E ic K (a :: r) es hes hq d]
+        all_goals rfl
+  | _ => simp [wide] at hw
+
+end
+
+/-- The identifiers a condition quantifies over. -/
+def Cond.quantified : Cond → List Str
+  | .id _ => []
+  | .not c => c.quantified
+  | .and a b => a.quantified ++ b.quantified
+  | .or a b => a.quantified ++ b.quantified
+  | .all i => [i]
+  | .of i _ => [i]
+
+/-- **A loaded rule means what its text says — with all(X) and of(X, n) in the condition.** As
+    `rule_refines`, for EVERY condition of the language: identifiers under a quantifier have to be
+    lists of entries (`wide`: a mapping with at least two entries, or a sequence of mappings), and
+    the quantifier then counts the documented meanings of those entries as written. -/
+theorem rule_refines_quantified (E : RegexEngine) (ic : Bool) (entries : List (Str × Yaml)) (det : Detection)
+    (h : loadDetection E ic entries = .ok det) (c : Cond) (hc : det.expr = c.toExpr)
+    (hids : ∀ p ∈ det.idsRaw, nqIdent p.2 = true)
+    (hwide : ∀ i ∈ c.quantified, ∃ y, rawLookup det.idsRaw i = some y ∧ wide y = true) (doc : Doc) :
+    solveTop E det.ids doc det.expr =
+      Spec.cond (fun i => match rawLookup det.idsRaw i with
+                          | some y => semIdent E ic closedK y doc
+                          | none => .m)
+                (fun i => match rawLookup det.idsRaw i with
+                          | some y => (semTop E ic closedK y doc).getD []
+                          | none => []) c := by
+  have hcons := loaded_cons E ic entries det h
+  rw [hc]
+  clear hc
+  have key : ∀ i, (∃ y, rawLookup det.idsRaw i = some y ∧ wide y = true) →
+      ∃ op es, lookupId det.ids i = some (.group op es) ∧
+        es.map (solveClosed E doc) = (match rawLookup det.idsRaw i with
+                          | some y => (semTop E ic closedK y doc).getD []
+                          | none => []) := by
+    intro i ⟨y, hy, hw⟩
+    rcases cons_lookup E ic [] det.ids det.idsRaw hcons i with ⟨_, h2⟩ | ⟨b, y', h1, h2, h3⟩
+    · rw [h2] at hy; cases hy
+    · rw [h2] at hy; cases hy
+      obtain ⟨op, es, rfl, hs⟩ := identifier_top_refines E ic closedK y b h3
+        (hids (i, y) (rawLookup_mem _ i y h2)) hw
+      refine ⟨op, es, h1, ?_⟩
+      simp only [h2, ← hs doc, Option.getD_some]
+      rfl
+  induction c with
+  | id i =>
+    simp only [Cond.toExpr, Spec.cond, solveTop, solveG, topK]
+    rcases cons_lookup E ic [] det.ids det.idsRaw hcons i with ⟨h1, h2⟩ | ⟨b, y, h1, h2, h3⟩
+    · simp only [h1, h2]
+    · simp only [h1, h2]
+      exact identifier_refines E ic closedK y b h3 (hids (i, y) (rawLookup_mem _ i y h2)) doc
+  | not c ih =>
+    simp only [Cond.toExpr, Spec.cond, ← ih (fun i hi => hwide i hi)]
+    simp [solveTop, solveG]
+  | and a b iha ihb =>
+    simp only [Cond.toExpr, Spec.cond,
+      ← iha (fun i hi => hwide i (by simp [Cond.quantified, hi])),
+      ← ihb (fun i hi => hwide i (by simp [Cond.quantified, hi]))]
+    simp [solveTop, solveG, binAnd_eq]
+  | or a b iha ihb =>
+    simp only [Cond.toExpr, Spec.cond,
+      ← iha (fun i hi => hwide i (by simp [Cond.quantified, hi])),
+      ← ihb (fun i hi => hwide i (by simp [Cond.quantified, hi]))]
+    simp [solveTop, solveG, binOr_eq]
+  | all i =>
+    obtain ⟨op, es, hl, hs⟩ := key i (hwide i (by simp [Cond.quantified]))
+    simp only [Cond.toExpr, Spec.cond, ← hs]
+    exact C06.solve_all_ident E det.ids doc i op es hl
+  | of i n =>
+    obtain ⟨op, es, hl, hs⟩ := key i (hwide i (by simp [Cond.quantified]))
+    simp only [Cond.toExpr, Spec.cond, ← hs]
+    exact C06.solve_of_ident E det.ids doc i n op es hl
+
+/-- Non-vacuity: a sequence of two mappings and a two-entry mapping meet the hypotheses. -/
+example :
+    let X : Yaml := .seq [.map [(.str "a".toList, .str "x".toList)], .map [(.str "b".toList, .num (.int 2)), (.str "c".toList, .str "y*".toList)]]
+    let M : Yaml := .map [(.str "a".toList, .str "x".toList), (.str "not(b)".toList, .seq [.str "p".toList, .str "?q".toList])]
+    wide X = true ∧ nqIdent X = true ∧ wide M = true ∧ nqIdent M = true ∧
+    (Cond.or (.of "X".toList 2) (.not (.all "M".toList))).quantified = ["X".toList, "M".toList] := by
+  refine ⟨rfl, by decide, rfl, by decide, rfl⟩
+
+end Tau.C02
